@@ -71,6 +71,17 @@ def gen_c01(seed, tier):
                 sc.ks_set_key(kind, 0, bytes([pat]) * (z * bs))
                 sc.ks_crypt(True, kind, 0, bytes([pat ^ 0xFF]) * bs)
                 sc.ks_crypt(False, kind, 0, bytes([pat]) * bs)
+            # keys that are prefixes / extensions of the previously expanded key, on the same and on
+            # another object (a schedule must depend on nothing but the key passed in)
+            sc.reset("c01-prefix-%s-%d" % (kind, z))
+            master = sc.rb_nz(3 * bs)
+            for o, n in ((0, 3), (0, z), (1, 1), (1, 3), (0, 2), (1, z), (0, 1)):
+                sc.ks_set_key(kind, o, master[:n * bs])
+                sc.ks_crypt(True, kind, o, sc.rb(bs))
+            zero = bytes(3 * bs)
+            for n in (1, 2, 3, 2, 1):
+                sc.ks_set_key(kind, 0, zero[:n * bs])
+                sc.ks_crypt(False, kind, 0, sc.rb(bs))
             nrand = 300 if thorough else 6
             sc.reset("c01-rand-%s-%d" % (kind, z))
             for i in range(nrand):
@@ -126,11 +137,33 @@ def check_C01(work, tier, seed):
         b2 = build(work, name=name, defs=defs, built128=0 if "neutral" in name else 1,
                    built256=0 if "neutral" in name else 1)
         axis_compare(work, "C01", seed, out, lines, name, b2, sc.text(), "-" + name)
+    # fresh processes in which OTHER uses of the library come first (tweakable and long keys of the
+    # same cipher, CTR and parallel objects): a key schedule must not depend on what ran before
+    pre = Sc(seed + 5)
+    pre.lines = ["env"]
+    pre.reset("c01-order")
+    for kind in ("s64", "s128"):
+        bs = BS[kind]
+        pre.ks_set_tweaked_key(kind, 1, pre.rb(2 * bs))
+        pre.ks_set_tweak(kind, 1, pre.rb(bs))
+        pre.ks_crypt(True, kind, 1, pre.rb(bs), t=1)
+        pre.ctr_init(kind, 0)
+        pre.ctr_set_tweaked_key(kind, 0, pre.rb(bs))
+        pre.ctr_encrypt(kind, 0, pre.rb(40))
+        pre.ctr_cleanup(kind, 0)
+        for z in (1, 2, 3):
+            key, pt, ct = [bytes.fromhex(x) for x in SKINNY_VECTORS[(kind, z)]]
+            pre.ks_set_key(kind, 0, key)
+            pre.ks_crypt(True, kind, 0, pt)
+            pre.ks_crypt(False, kind, 0, ct)
+        pre.ks_crypt(True, kind, 1, pre.rb(bs), t=1)
+    lines += conform(work, b, "C01", seed, pre.text(), out, tag="-order")
     note_distinct(out, lines, ("o",))
     out.samples = sample_events(lines)
     return out, dict(
         level="exploration",
-        rule="(default build, 32-bit-word build and byte-order-neutral 32-bit build) "
+        rule="(default build, 32-bit-word build and byte-order-neutral 32-bit build; prefix/extension keys and a "
+             "fresh process in which tweakable, CTR and long-key uses come first) "
              "SKINNY-64/128 x TK1/2/3: published vectors; reduced-round (rr=1..) sweeps in which every cell position "
              "takes every cell value, enc and dec; walking round-key bytes at 3 rounds; full-round walking key bytes, "
              "patterns and seeded random key/block pairs, enc and dec of arbitrary blocks. Oracle: SkinnySpec.tla "
@@ -373,6 +406,42 @@ def gen_ctr(seed, tier, cap_for, c06=False):
             sc.ctr_set_tweak(kind, 0, sc.rb_nz(8 if kind == "mantis" else bs))
             sc.ctr_encrypt(kind, 0, sc.rb(bs))
             sc.ctr_cleanup(kind, 0)
+            # 4b'. the SAME value set again in the middle of a block: tweak, key, tweaked key (a "nothing
+            #     changed" shortcut must still abandon the rest of the block like every other back end)
+            sc.reset("ctr-repeat-%s" % kind)
+            sc.ctr_init(kind, 0, cap=cap)
+            tl_ = 8 if kind == "mantis" else bs
+            k1 = sc.rb(16 if kind == "mantis" else 2 * bs)
+            t1 = sc.rb_nz(tl_)
+            if kind == "mantis":
+                sc.ctr_set_key(kind, 0, k1, rounds=7)
+            else:
+                sc.ctr_set_tweaked_key(kind, 0, k1)
+            sc.ctr_set_tweak(kind, 0, bytes(tl_))            # equal to the initial all-zero tweak
+            sc.ctr_set_tweak(kind, 0, t1)
+            sc.ctr_set_counter(kind, 0, sc.rb(bs))
+            for n in (bs + 5, 3, 4 * bs + 1, 9 * bs + 7):
+                sc.ctr_encrypt(kind, 0, sc.rb(n))
+                sc.ctr_set_tweak(kind, 0, t1)                # same tweak again, mid-block
+                sc.ctr_encrypt(kind, 0, sc.rb(2))
+            sc.ctr_encrypt(kind, 0, sc.rb(bs + 1))
+            if kind == "mantis":
+                sc.ctr_set_key(kind, 0, k1, rounds=7)        # same key again, mid-block
+            else:
+                sc.ctr_set_tweaked_key(kind, 0, k1)
+            sc.ctr_encrypt(kind, 0, sc.rb(5))
+            if kind != "mantis":
+                k2 = sc.rb(3 * bs)
+                sc.ctr_set_key(kind, 0, k2)
+                sc.ctr_encrypt(kind, 0, sc.rb(7))
+                sc.ctr_set_key(kind, 0, k2)                  # same plain key again, mid-block
+                sc.ctr_encrypt(kind, 0, sc.rb(7))
+            c1 = sc.rb(bs)
+            sc.ctr_set_counter(kind, 0, c1)
+            sc.ctr_encrypt(kind, 0, sc.rb(3))
+            sc.ctr_set_counter(kind, 0, c1)                  # same counter again: the stream restarts
+            sc.ctr_encrypt(kind, 0, sc.rb(bs + 3))
+            sc.ctr_cleanup(kind, 0)
             # 4c. unconstrained API fuzz: ANY public CTR function with valid or invalid arguments in ANY
             #     order (plain key then tweak change, re-keying in the other family, tweak on an unkeyed
             #     object ...): the contract models all of it, so every back end must agree with it
@@ -495,6 +564,10 @@ def check_C05(work, tier, seed):
         run_mc(work, out, "MC_Ctr", "MCneg_Ctr_nostagger", expect_fail=True)
     b = build(work)
     lines = backend_sweep(work, b, "C05", seed, lambda cf: gen_ctr(seed, tier, cf, c06=False), out)
+    b2 = build(work, name="noua", defs=["SKINNY_VERIF_UNALIGNED=0"])
+    for cap in (2, 1, 0):
+        axis_compare(work, "C05", seed, out, lines, "SKINNY_UNALIGNED=0 cap %d" % cap, b2,
+                     gen_ctr(seed, tier, lambda k, cap=cap: cap, c06=False).text(), "-noua%d" % cap)
     note_distinct(out, lines, ("o", "n", "ctr", "cap"))
     out.samples = sample_events([x for x in lines if '"ctr_' in x])
     return out, dict(
@@ -621,6 +694,24 @@ def check_C04(work, tier, seed):
     lines = conform(work, b, "C04", seed, sc.text(), out)
     # spec -> impl: every transition of the tweak machine's state graph on the real objects
     lines += conform(work, b, "C04", seed, graph_tweak_scenarios(work, seed, out).text(), out, tag="-graph")
+    # a fresh process in which PLAIN keys of every size are expanded first (and in between): the
+    # tweakable schedule must not depend on what the process did before
+    pre = Sc(seed + 6)
+    pre.lines = ["env"]
+    pre.reset("c04-order")
+    for kind in ("s64", "s128"):
+        bs = BS[kind]
+        for z in (3, 1, 2):
+            pre.ks_set_key(kind, 0, pre.rb(z * bs))
+            pre.ks_crypt(True, kind, 0, pre.rb(bs))
+        for z in (1, 2):
+            pre.ks_set_tweaked_key(kind, 1, pre.rb(z * bs))
+            pre.ks_crypt(True, kind, 1, pre.rb(bs), t=1)
+            pre.ks_set_tweak(kind, 1, pre.rb_nz(bs - 1))
+            pre.ks_set_key(kind, 0, pre.rb(3 * bs))
+            pre.ks_set_tweak(kind, 1, pre.rb_nz(bs))
+            pre.ks_crypt(False, kind, 1, pre.rb(bs), t=1)
+    lines += conform(work, b, "C04", seed, pre.text(), out, tag="-order")
     note_distinct(out, lines, ("o", "tweak", "len", "ctr"))
     out.samples = sample_events([x for x in lines if "tweak" in x])
     return out, dict(
@@ -785,6 +876,11 @@ def check_C07(work, tier, seed):
     run_mc(work, out, "MC_Par", "MCneg_Par_noremainder", expect_fail=True)
     b = build(work)
     lines = backend_sweep(work, b, "C07", seed, lambda cf: gen_c07(seed, tier, cf), out)
+    # the byte-wise load/store variants of the vector code (strict-alignment targets), every back end
+    b2 = build(work, name="noua", defs=["SKINNY_VERIF_UNALIGNED=0"])
+    for cap in (2, 1, 0):
+        axis_compare(work, "C07", seed, out, lines, "SKINNY_UNALIGNED=0 cap %d" % cap, b2,
+                     gen_c07(seed, tier, lambda k, cap=cap: cap).text(), "-noua%d" % cap)
     note_distinct(out, lines, ("o", "n", "tweak", "cap"))
     out.samples = sample_events([x for x in lines if '"par_' in x])
     return out, dict(
@@ -1575,6 +1671,17 @@ def check_C11(work, tier, seed):
         for p in ((165,) if tier == "quick" else (165, 0)):
             t2 = text.replace("env\nlayout\n", "env\nlayout\nset paint=%d\n" % p, 1)
             axis_compare(work, "C11", seed, out, ref, "%s paint %d" % (name, p), b, t2, "-%s-%d" % (name, p))
+    # results can only be a function of the API inputs if the library keeps no state of its own:
+    # the guard-off library must have no writable static storage (same fact as in C18)
+    b0 = build(work, name="nohook", hooks=False, drv=False)
+    nbytes, detail = static_data_bytes(b0)
+    fact = [json.dumps({"e": "static_data", "bytes": nbytes, "detail": detail[:5]})]
+    rr = validate_trace(work, fact)
+    out.traces_tlc += 1
+    if not rr.accepted:
+        p = save_replay("C11", seed, 699, fact, "library has writable static storage")
+        out.violations.append(("static_data", p, "library objects contain %d bytes of .data/.bss (hidden state "
+                               "that outlives a call): %s" % (nbytes, detail[:3])))
     note_distinct(out, ref, ("o", "len", "n"))
     out.samples = sample_events(ref, maxlen=200)
     return out, dict(
@@ -1800,7 +1907,9 @@ def check_C09(work, tier, seed):
     lines = backend_sweep(work, b, "C09", seed, lambda cf: gen_c09(seed, tier, cf), out)
     # the byte-wise (no unaligned fast path) build must obey the same contract
     b2 = build(work, name="noua", defs=["SKINNY_VERIF_UNALIGNED=0"])
-    axis_compare(work, "C09", seed, out, lines, "SKINNY_UNALIGNED=0", b2, gen_c09(seed, tier).text(), "-noua")
+    for cap in (2, 1, 0):
+        axis_compare(work, "C09", seed, out, lines, "SKINNY_UNALIGNED=0 cap %d" % cap, b2,
+                     gen_c09(seed, tier, lambda k, cap=cap: cap).text(), "-noua%d" % cap)
     note_distinct(out, lines, ("o", "ov", "n", "len"))
     out.samples = sample_events([x for x in lines if '"ov"' in x or '"ip":1' in x], maxlen=220)
     return out, dict(
@@ -2583,6 +2692,7 @@ def graph_ctr_scenarios(work, seed, cap_for, out, kinds=("s128", "s64", "mantis"
         for si, seq in enumerate(seqs):
             sc.reset("g-ctr-%s-%d" % (kind, si))
             live, j, since = False, 0, 0
+            curkey, curtw = None, bytes(tl)
             for lab in seq:
                 name, a = _label(lab)
                 if name == "DoInit":
@@ -2590,6 +2700,7 @@ def graph_ctr_scenarios(work, seed, cap_for, out, kinds=("s128", "s64", "mantis"
                     sc.ctr_init(kind, 0, cap=cap_for(kind), fail=1 if fail else None,
                                 prefill=sc.rng.choice([None, 0, 0xA5]) if not live else None)
                     live, j, since = (not fail), 0, 0
+                    curkey, curtw = None, bytes(tl)
                 elif name == "DoCleanup":
                     sc.ctr_cleanup(kind, 0)
                     live = False
@@ -2599,9 +2710,23 @@ def graph_ctr_scenarios(work, seed, cap_for, out, kinds=("s128", "s64", "mantis"
                     setk = sc.ctr_set_tweaked_key if (tweaked and kind != "mantis") else sc.ctr_set_key
                     kw = {"rounds": 5 + (z % 4)} if (kind == "mantis" or not tweaked) else {}
                     if cls == "valid":
-                        setk(kind, 0, sc.rb_nz(16 if kind == "mantis" else z * bs), **kw)
+                        kb_ = sc.rb_nz(16 if kind == "mantis" else z * bs)
+                        setk(kind, 0, kb_, **kw)
                         if live:
                             j, since = 0, (since + bs - 1) // bs * bs
+                            curkey = (kb_, kw.get("rounds"))
+                            if tweaked or kind == "mantis":
+                                curtw = bytes(tl)      # keying (tweakable / Mantis) resets the tweak to zero
+                    elif cls == "same":
+                        # the very key that is already in force, again (mid-stream)
+                        kk, rr_ = curkey if curkey else (sc.rb_nz(16 if kind == "mantis" else bs), 6)
+                        if kind == "mantis" or not tweaked:
+                            setk(kind, 0, kk, rounds=rr_)
+                        else:
+                            setk(kind, 0, kk)
+                        j, since = 0, (since + bs - 1) // bs * bs
+                        if tweaked or kind == "mantis":
+                            curtw = bytes(tl)
                     elif cls == "null":
                         setk(kind, 0, None, bs, **kw)
                     elif cls == "short":
@@ -2617,12 +2742,22 @@ def graph_ctr_scenarios(work, seed, cap_for, out, kinds=("s128", "s64", "mantis"
                     cls = a[0]
                     if cls in ("full", "short", "null") and live:
                         j, since = 0, (since + bs - 1) // bs * bs
-                    if cls == "full" or (cls == "short" and kind == "mantis"):
-                        sc.ctr_set_tweak(kind, 0, sc.rb_nz(tl))
+                    if cls == "same":
+                        if live:
+                            j, since = 0, (since + bs - 1) // bs * bs
+                        sc.ctr_set_tweak(kind, 0, curtw)       # the tweak that is already in force, full length
+                    elif cls == "full" or (cls == "short" and kind == "mantis"):
+                        curtw = sc.rb_nz(tl) if live else curtw
+                        sc.ctr_set_tweak(kind, 0, curtw if live else sc.rb_nz(tl))
                     elif cls == "short":
-                        sc.ctr_set_tweak(kind, 0, sc.rb_nz(sc.rng.randrange(1, bs)))
+                        t_ = sc.rb_nz(sc.rng.randrange(1, bs))
+                        sc.ctr_set_tweak(kind, 0, t_)
+                        if live:
+                            curtw = t_ + bytes(tl - len(t_))
                     elif cls == "null":
                         sc.ctr_set_tweak(kind, 0, None, tl)
+                        if live:
+                            curtw = bytes(tl)
                     elif cls == "zero_len":
                         sc.ctr_set_tweak(kind, 0, sc.rb(tl), 0)
                     else:
